@@ -41,6 +41,8 @@ def in_scope(prop: str, short: str, cls: str, member: str) -> bool:
     if prop == "C08":
         return (short == "collator.py" and "sortbyvalue" in tag) or (short in ("matrix/assembler.py", "stripe/assembler.py") and ("sort" in tag or "orderhelper" in tag or "measure" in tag))
     if prop == "C09":
+        if short == "cube.py" and "augment" in tag:
+            return True  # the padding of a filter cube rewrites the UNWEIGHTED counts the pruning of that cube is decided from
         return (short == "collator.py" and ("hidden" in tag or "display_order" in tag)) or (short in ("matrix/assembler.py", "stripe/assembler.py") and ("prun" in tag or "empty" in tag or "display_order" in tag)) or (short in ("matrix/cubemeasure.py", "stripe/cubemeasure.py") and "prun" in tag) or (short == "dimension.py" and ("hidden" in tag or "prune" in tag or "hide" in tag))
     if prop == "C19":
         return (short == "dimension.py" and ("elementidshim" in tag or "translate" in tag or "_build_element_id" in tag)) or (short in ("matrix/assembler.py", "stripe/assembler.py") and ("_idx" in tag or "orderhelper" in tag))
